@@ -1,6 +1,13 @@
 (* C35 — case type, correspondence predicate and property predicate.
    Depends on the model only. *)
 From Murex Require Export Base.Outcome Base.Bytes Base.CheckLib Model.Escape.
+From Murex Require Import Gen.HtmlEntity.
+
+(* html/entity.go of the toolchain in use: all 2229 names *)
+Definition ent_full : bytes -> option bytes := ent_of_table html_entities.
+
+(* the model's constant is the library's *)
+Definition longest_ok : bool := Nat.eqb html_longest_entity_without_semicolon longest_entity_without_semicolon.
 
 (* Round: c_in is fed to `k`, its observed output to `!k`; also `<stdin> -> k -> !k`.
    DecOnly: c_in is fed to `!k` only (malformed / entity-like text): correspondence only. *)
@@ -26,7 +33,7 @@ Definition out_eqb (a b : Outcome bytes) : bool :=
 
 (* The model with strconv instantiated by the recorded library results. *)
 Definition m_cmd (c : case) : kind -> bool -> bytes -> Outcome bytes :=
-  cmd (fun _ => c_libq c) (fun _ => c_libuq c) ent_small.
+  cmd (fun _ => c_libq c) (fun _ => c_libuq c) ent_full.
 
 Definition agree (c : case) : bool :=
   let k := c_kind c in
@@ -58,8 +65,8 @@ Definition classify (c : case) : N := 0%N.
 (* the Round case the model predicts for input s (strconv as functions) *)
 Definition model_case (quote : bytes -> bytes) (unquote : bytes -> option bytes)
            (k : kind) (s : bytes) : case :=
-  let enc := cmd quote unquote ent_small k false s in
-  let dec := obind enc (cmd quote unquote ent_small k true) in
+  let enc := cmd quote unquote ent_full k false s in
+  let dec := obind enc (cmd quote unquote ent_full k true) in
   {| c_kind := k; c_mode := Round; c_in := s; c_enc := enc; c_dec := dec;
-     c_pipe := pipeline quote unquote ent_small k s;
+     c_pipe := pipeline quote unquote ent_full k s;
      c_libq := quote s; c_libuq := unquote (quote s) |}.
